@@ -322,6 +322,83 @@ def frac_in_supercell(fr: P, size: P, sc_frame):
     return None, None
 
 
+def _batched_supercell(chk, q, defs, size):
+    """The copies made in one go:  positions = (P[newaxis, :, :] + SHIFTS[:, newaxis, :]).reshape(-1, 3)  with P the stacked positions of the
+    unit-cell molecules and SHIFTS = [[q, r, s] @ lattice for (q, r, s) in product(arange(n1), arange(n2), arange(n3))], atomic numbers
+    = tile(stacked numbers, len(SHIFTS)): both cell-major (cell c, atom a at row c * natoms + a).  Emits the obligations of the loop form;
+    False when the construction is not of this shape."""
+    pos, nums = defs.get("asym_pos"), defs.get("asym_nums")
+    if pos is None or nums is None:
+        return False
+    pa = pos.as_atom()
+    if not (pa and pa[0] == "call" and call_name(pa) == ".reshape" and [x.key() for x in pa[2]] in (["-1", "3"], ["(tuple (-1 3))"])):
+        return False
+    total = pa[1].as_atom()[1]
+    if not (total.is_poly() and len(total.n) == 2):
+        return False
+    parts = {}
+    for mono, coef in total.n.items():
+        if coef != 1 or len(mono) != 1 or mono[0][1] != 1:
+            return False
+        at = mono[0][0]
+        if at[0] != "sub" or len(at[2]) != 3:
+            return False
+        shape = tuple("n" if x.key() in ("numpy.newaxis", "None") else ":" if x.key().startswith("(slice None None None)") else "?" for x in at[2])
+        parts[shape] = at[1]
+    if set(parts) != {("n", ":", ":"), (":", "n", ":")}:
+        return False
+    P_, S_ = parts[("n", ":", ":")], parts[(":", "n", ":")]
+
+    def comp_of(t):
+        a = t.as_atom()
+        while a and a[0] == "call" and call_name(a) in ("numpy.asarray", "numpy.array", "numpy.vstack", "numpy.hstack", "numpy.stack", "numpy.concatenate") and a[2]:
+            t = a[2][0]
+            a = t.as_atom()
+        return a if a and a[0] == "comp" and a[1] in ("ListComp", "GeneratorExp") and len(a) == 4 and len(a[3]) == 1 and not a[3][0][2] else None
+    sc_, pc = comp_of(S_), comp_of(P_)
+    na = nums.as_atom()
+    if sc_ is None or pc is None or not (na and call_name(na) == "numpy.tile" and len(na[2]) == 2):
+        return False
+    nc = comp_of(na[2][0])
+    if nc is None:
+        return False
+    it = sc_[3][0][1]
+    prod_ok = call_name(it.as_atom() or ()) == "itertools.product" and len(it.as_atom()[2]) == 3
+    ranges_ok = prod_ok and all(x.key() == f"numpy.arange({size}[{k}])" for k, x in enumerate(it.as_atom()[2]))
+    chk.ob("R13.4", CR, q, "cell offsets run over the product of arange(n1), arange(n2), arange(n3)", bool(ranges_ok), fingerprint="product", found=str(it)[:160])
+
+    def source(c):
+        """the sequence a comprehension runs over, through `M if <cells> else []`"""
+        m = c[3][0][1]
+        ma = m.as_atom()
+        if ma and ma[0] == "ite" and ma[3].key() == "(tuple ())":
+            m = ma[2]
+        return m
+    chk.ob("R13.4", CR, q, "every molecule of the unit cell is used in every cell", source(pc).key() == "self.unit_cell_molecules()",
+           fingerprint="mols", found=str(source(pc))[:120])
+    sh = sc_[2].as_atom()
+    okt = False
+    if sh and sh[0] == "matmul":
+        qrs, lat = sh[1]
+        idx = [x for x in find_atoms(sc_[2], lambda t: t[0] == "lv")]
+        cell = P.atom(("sub", it, (P.atom(idx[0]),))) if idx else None
+        its = seq_items(qrs.as_atom()[2][0]) if qrs.as_atom() and qrs.as_atom()[0] == "call" else None
+        okt = bool(cell is not None and its and [x.key() for x in its] == [P.atom(("sub", cell, (P.const(k),))).key() for k in range(3)]
+                   and lat.key() in ("self.unit_cell.lattice", "self.unit_cell.direct"))
+    import re as _re
+    noit = lambda k: _re.sub(r"#\d+", "#", k)
+    okt = okt and noit(pc[2].key()) == noit(P.atom(("attr", P.atom(("sub", pc[3][0][1], (P.atom(("lv", "_it", 0)),))), "positions")).key())
+    chk.ob("R13.4", CR, q, "each copy is the molecule translated (a copy, not in place) by [q, r, s] . lattice", okt, fingerprint="translate",
+           found=str(sc_[2])[:160])
+    same_src = noit(source(pc).key()) == noit(source(nc).key()) and ".atomic_numbers" in nc[2].key() and ".positions" in pc[2].key()
+    count = na[2][1].as_atom()
+    cells_counted = bool(count and call_name(count) == "len" and noit(count[2][0].key()) in (noit(S_.key()), noit(P.atom(sc_).key())))
+    chk.ob("R13.4", CR, q, "positions and atomic numbers are stacked from the same list of molecules, in the same order",
+           same_src and cells_counted, fingerprint="stack", expected="cell-major both: (cells, atoms, 3).reshape(-1, 3) and tile(numbers, number of cells)",
+           found=f"{str(nums)[:100]}")
+    return True
+
+
 def r13_4(chk, cr, q):
     ev = cr.ev(q, opaque={"sc", "molecules", "sc_mols", "asym_pos", "asym_nums", "asymmetric_unit"})
     chk.saw(CR, q)
@@ -348,34 +425,39 @@ def r13_4(chk, cr, q):
                found=str(sc)[:160])
     # translation of every molecule by every cell vector
     app = [e for e in ev.events if e.kind == "call" and e.target is not None and e.target.key().endswith(".append") and len(e.loops) == 2]
-    chk.need(len(app) == 1, f"{q}: molecule append inside the double loop not found")
-    e = app[0]
-    outer, inner = e.loops
-    prod_ok = outer.iter is not None and call_name(outer.iter.as_atom() or ()) == "itertools.product" and len(outer.iter.as_atom()[2]) == 3
-    ranges_ok = prod_ok and all(x.key() == f"numpy.arange({size}[{k}])" for k, x in enumerate(outer.iter.as_atom()[2]))
-    chk.ob("R13.4", CR, q, "cell offsets run over the product of arange(n1), arange(n2), arange(n3)", bool(ranges_ok), fingerprint="product",
-           found=str(outer.iter))
-    chk.ob("R13.4", CR, q, "every molecule of the unit cell is used in every cell", inner.iter is not None and inner.iter.key() == "self.unit_cell_molecules()",
-           fingerprint="mols", found=str(inner.iter))
-    arg = e.extra["args"][0].as_atom()
-    okt = False
-    if arg and call_name(arg) == ".translated":
-        sh = arg[2][0].as_atom()
-        if sh and sh[0] == "matmul":
-            qrs, lat = sh[1]
-            cell = P.atom(("sub", outer.iter, (outer.index,)))
-            it = seq_items(qrs.as_atom()[2][0]) if qrs.as_atom() and qrs.as_atom()[0] == "call" else None
-            okt = bool(it and [x.key() for x in it] == [P.atom(("sub", cell, (P.const(k),))).key() for k in range(3)]
-                       and lat.key() in ("self.unit_cell.lattice", "self.unit_cell.direct"))
-        okt = okt and arg[1].as_atom()[1].key() == P.atom(("sub", inner.iter, (inner.index,))).key()
-    chk.ob("R13.4", CR, q, "each copy is the molecule translated (a copy, not in place) by [q, r, s] . lattice", okt, fingerprint="translate",
-           found=str(e.extra["args"][0])[:160])
-    lst = "$molecules" if "molecules" in defs else "$sc_mols"
-    pos, nums, asym = defs.get("asym_pos"), defs.get("asym_nums"), defs.get("asymmetric_unit")
-    chk.ob("R13.4", CR, q, "positions and atomic numbers are stacked from the same list of molecules, in the same order",
-           pos is not None and nums is not None and "numpy.vstack" in pos.key() and ".positions" in pos.key() and lst in pos.key()
-           and "numpy.hstack" in nums.key() and ".atomic_numbers" in nums.key() and lst in nums.key(), fingerprint="stack",
-           found=f"{pos} / {nums}")
+    batched = False
+    if not app:
+        batched = _batched_supercell(chk, q, defs, size)
+    chk.need(len(app) == 1 or batched, f"{q}: molecule append inside the double loop not found")
+    if not batched:
+        e = app[0]
+        outer, inner = e.loops
+        prod_ok = outer.iter is not None and call_name(outer.iter.as_atom() or ()) == "itertools.product" and len(outer.iter.as_atom()[2]) == 3
+        ranges_ok = prod_ok and all(x.key() == f"numpy.arange({size}[{k}])" for k, x in enumerate(outer.iter.as_atom()[2]))
+        chk.ob("R13.4", CR, q, "cell offsets run over the product of arange(n1), arange(n2), arange(n3)", bool(ranges_ok), fingerprint="product",
+               found=str(outer.iter))
+        chk.ob("R13.4", CR, q, "every molecule of the unit cell is used in every cell", inner.iter is not None and inner.iter.key() == "self.unit_cell_molecules()",
+               fingerprint="mols", found=str(inner.iter))
+        arg = e.extra["args"][0].as_atom()
+        okt = False
+        if arg and call_name(arg) == ".translated":
+            sh = arg[2][0].as_atom()
+            if sh and sh[0] == "matmul":
+                qrs, lat = sh[1]
+                cell = P.atom(("sub", outer.iter, (outer.index,)))
+                it = seq_items(qrs.as_atom()[2][0]) if qrs.as_atom() and qrs.as_atom()[0] == "call" else None
+                okt = bool(it and [x.key() for x in it] == [P.atom(("sub", cell, (P.const(k),))).key() for k in range(3)]
+                           and lat.key() in ("self.unit_cell.lattice", "self.unit_cell.direct"))
+            okt = okt and arg[1].as_atom()[1].key() == P.atom(("sub", inner.iter, (inner.index,))).key()
+        chk.ob("R13.4", CR, q, "each copy is the molecule translated (a copy, not in place) by [q, r, s] . lattice", okt, fingerprint="translate",
+               found=str(e.extra["args"][0])[:160])
+        lst = "$molecules" if "molecules" in defs else "$sc_mols"
+        pos, nums, asym = defs.get("asym_pos"), defs.get("asym_nums"), defs.get("asymmetric_unit")
+        chk.ob("R13.4", CR, q, "positions and atomic numbers are stacked from the same list of molecules, in the same order",
+               pos is not None and nums is not None and "numpy.vstack" in pos.key() and ".positions" in pos.key() and lst in pos.key()
+               and "numpy.hstack" in nums.key() and ".atomic_numbers" in nums.key() and lst in nums.key(), fingerprint="stack",
+               found=f"{pos} / {nums}")
+    asym = defs.get("asymmetric_unit")
     # Cartesian frames: the stacked positions are in the frame of self.unit_cell (translated copies of its molecules); a cell built
     # by from_lengths_and_angles is in the standard orientation, which self.unit_cell need not be (choose_trigonal_lattice, cells
     # given by vectors).  Converting positions with a cell of another frame scrambles the structure.
